@@ -142,6 +142,35 @@ pub mod verif_crash {
     }
 }
 
+/// Verification hook H2: steering points for multi-process experiments.
+/// `VERYL_VERIF_GATE=<dir>`: every point creates `<dir>/<name>.at.<pid>`;
+/// `VERYL_VERIF_GATE_HOLD=<name>,<name>`: at these points the process then
+/// waits until `<dir>/<name>.go` exists (at most 300 s). Inert unless
+/// `VERYL_VERIF_GATE` is set.
+#[cfg(veryl_verif)]
+pub mod verif_gate {
+    pub fn point(name: &str) {
+        let Some(dir) = std::env::var_os("VERYL_VERIF_GATE") else {
+            return;
+        };
+        let dir = std::path::PathBuf::from(dir);
+        let _ = std::fs::write(
+            dir.join(format!("{name}.at.{}", std::process::id())),
+            b"",
+        );
+        let hold = std::env::var("VERYL_VERIF_GATE_HOLD").unwrap_or_default();
+        if hold.split(',').any(|x| x == name) {
+            let go = dir.join(format!("{name}.go"));
+            for _ in 0..30000 {
+                if go.exists() {
+                    break;
+                }
+                std::thread::sleep(std::time::Duration::from_millis(10));
+            }
+        }
+    }
+}
+
 /// Write `contents` to `path` atomically (temp file + rename) so a concurrent
 /// reader never observes a truncated/empty file, only the old or new contents.
 #[cfg(not(target_family = "wasm"))]
